@@ -123,7 +123,7 @@ static void h_free (void *p, void *u) {
 static struct MIR_alloc h_alloc = {h_malloc, h_calloc, h_realloc, h_free, NULL};
 
 /* ---- parsed items */
-enum kind { K_DATA, K_BSS, K_REF, K_LREF, K_EXPR, K_FUNC, K_G, K_IMPORT, K_PROTO, K_FORWARD, K_EXPORT };
+enum kind { K_DATA, K_BSS, K_REF, K_LREF, K_MREF, K_EXPR, K_FUNC, K_G, K_H, K_IMPORT, K_PROTO, K_FORWARD, K_EXPORT };
 struct pitem {
   enum kind k;
   int nm; /* -1 anonymous */
@@ -199,6 +199,10 @@ static int parse_item (char *s, struct pitem *p) {
     default: return 0;
     }
   }
+  if (w[0][0] == 'H') { /* the second function with labels, see build_h */
+    p->k = K_H;
+    return 1;
+  }
   if (w[0][0] == 'G') {
     p->k = K_G;
     if (n == 1) {
@@ -238,6 +242,11 @@ static int parse_item (char *s, struct pitem *p) {
     p->k = K_LREF; p->l1 = atoi (w[2]); p->l2 = w[3][0] == '-' ? -1 : atoi (w[3]);
     p->disp = (uint64_t) parse_hex128 (w[4]);
     return 1;
+  case 'M': /* lref to the labels (0..1) of the H function */
+    if (n < 5) return 0;
+    p->k = K_MREF; p->l1 = atoi (w[2]); p->l2 = w[3][0] == '-' ? -1 : atoi (w[3]);
+    p->disp = (uint64_t) parse_hex128 (w[4]);
+    return 1;
   case 'E': if (n < 3) return 0; p->k = K_EXPR; p->fn = atoi (w[2]); return 1;
   default: return 0;
   }
@@ -248,6 +257,7 @@ static void item_name (char *b, int idx) {
   switch (p->k) {
   case K_FUNC: sprintf (b, "f%d", idx); break;
   case K_G: sprintf (b, "g%d", idx); break;
+  case K_H: sprintf (b, "h%d", idx); break;
   case K_IMPORT: sprintf (b, "imp%d", idx); break;
   case K_PROTO: sprintf (b, "pr%d", idx); break;
   default: sprintf (b, "d%d", p->nm); break;
@@ -427,6 +437,43 @@ static int expected_ret (int k) {
   }
   return -1;
 }
+/* wave 6: a SECOND function with labels in the same module, so that the lref items of two functions can be interleaved
+   in module order (link_module_lrefs keeps one list of lrefs per function).  h (sel): sel == k+1: return the address
+   of its label HL<k> (laddr), k = 0..1; sel == 3: goto HL1; else HL0: ret 200; HL1: ret 201 */
+static MIR_label_t hlabels[2];
+static void build_h (MIR_context_t ctx, int idx) {
+  char name[32];
+  MIR_type_t i64 = MIR_T_I64;
+  MIR_var_t args[1] = {{MIR_T_I64, "sel", 0}};
+  item_name (name, idx);
+  MIR_item_t h = MIR_new_func_arr (ctx, name, 1, &i64, 1, args);
+  items[idx].it = h;
+  MIR_reg_t sel = MIR_reg (ctx, "sel", h->u.func);
+  MIR_reg_t p = MIR_new_func_reg (ctx, h->u.func, MIR_T_I64, "p");
+  MIR_label_t a[2] = {MIR_new_label (ctx), MIR_new_label (ctx)};
+  for (int k = 0; k < 2; k++)
+    MIR_append_insn (ctx, h,
+                     MIR_new_insn (ctx, MIR_BEQ, MIR_new_label_op (ctx, a[k]), MIR_new_reg_op (ctx, sel),
+                                   MIR_new_int_op (ctx, k + 1)));
+  /* both labels are reachable by ordinary control flow (h has no jmpi: a label reached by nothing is removed with
+     its block by the generator) */
+  MIR_append_insn (ctx, h,
+                   MIR_new_insn (ctx, MIR_BEQ, MIR_new_label_op (ctx, hlabels[1]), MIR_new_reg_op (ctx, sel),
+                                 MIR_new_int_op (ctx, 3)));
+  MIR_append_insn (ctx, h, MIR_new_insn (ctx, MIR_JMP, MIR_new_label_op (ctx, hlabels[0])));
+  for (int k = 0; k < 2; k++) {
+    MIR_append_insn (ctx, h, a[k]);
+    MIR_append_insn (ctx, h,
+                     MIR_new_insn (ctx, MIR_LADDR, MIR_new_reg_op (ctx, p), MIR_new_label_op (ctx, hlabels[k])));
+    MIR_append_insn (ctx, h, MIR_new_ret_insn (ctx, 1, MIR_new_reg_op (ctx, p)));
+  }
+  for (int k = 0; k < 2; k++) {
+    MIR_append_insn (ctx, h, hlabels[k]);
+    MIR_append_insn (ctx, h, MIR_new_ret_insn (ctx, 1, MIR_new_int_op (ctx, 200 + k)));
+  }
+  MIR_finish_func (ctx);
+}
+
 /* g (sel, x): sel == 0: jmpi x;  sel == k+1: return the address of label k (laddr);
    then L0: body0; L1: body1; ...; ret 99 */
 static void build_g (MIR_context_t ctx, int idx) {
@@ -556,8 +603,9 @@ static void run_case (char *line) {
     }
     return;
   }
-  int have_g = -1;
+  int have_g = -1, have_h = -1;
   MIR_module_t m = MIR_new_module (ctx, "m");
+  for (int k = 0; k < 2; k++) hlabels[k] = MIR_new_label (ctx);
   for (int k = 0; k < gnlab; k++) glabels[k] = MIR_new_label (ctx);
   MIR_type_t i64 = MIR_T_I64;
   for (int i = 0; i < nitems; i++) {
@@ -589,6 +637,13 @@ static void run_case (char *line) {
       }
       p->it = MIR_new_lref_data (ctx, nmp, glabels[p->l1], p->l2 < 0 ? NULL : glabels[p->l2], (int64_t) p->disp);
       break;
+    case K_MREF:
+      if (p->l1 < 0 || p->l1 >= 2 || p->l2 >= 2) {
+        printf ("badcase mref %d\n", i);
+        return;
+      }
+      p->it = MIR_new_lref_data (ctx, nmp, hlabels[p->l1], p->l2 < 0 ? NULL : hlabels[p->l2], (int64_t) p->disp);
+      break;
     case K_EXPR:
       if (p->fn < 0 || p->fn >= i || items[p->fn].it == NULL) {
         printf ("badcase expr %d\n", i);
@@ -599,6 +654,14 @@ static void run_case (char *line) {
     case K_G:
       build_g (ctx, i);
       have_g = i;
+      break;
+    case K_H:
+      if (have_h >= 0) {
+        printf ("badcase second H\n");
+        return;
+      }
+      build_h (ctx, i);
+      have_h = i;
       break;
     case K_IMPORT: item_name (name, i); p->it = MIR_new_import (ctx, name); break;
     case K_PROTO: item_name (name, i); p->it = MIR_new_proto_arr (ctx, name, 1, &i64, 0, NULL); break;
@@ -672,6 +735,19 @@ static void run_case (char *line) {
         }
       }
     }
+  /* the lrefs of h: h is prepared (first call) AFTER g was; the addresses of its two labels by laddr */
+  if (have_h >= 0) {
+    int64_t (*h) (int64_t) = (int64_t (*) (int64_t)) items[have_h].it->addr;
+    int64_t hraw[2];
+    for (int k = 0; k < 2; k++) hraw[k] = h (k + 1);
+    if (h (0) != 200 || h (3) != 201) jok = 0;
+    for (int i = 0; i < nitems; i++) {
+      struct pitem *p = &items[i];
+      if (p->k != K_MREF) continue;
+      ka1[i] = hraw[p->l1];
+      ka2[i] = p->l2 < 0 ? 0 : hraw[p->l2];
+    }
+  }
   printf ("ok A");
   for (int i = 0; i < nitems; i++)
     if (items[i].it != NULL && items[i].it->addr != NULL) printf (" %d:%llx", i, (unsigned long long) items[i].it->addr);
@@ -681,6 +757,9 @@ static void run_case (char *line) {
     for (int i = 0; i < nitems; i++)
       if (items[i].k == K_LREF) printf (" K%d:%llx:%llx", i, (unsigned long long) ka1[i], (unsigned long long) ka2[i]);
   }
+  if (have_h >= 0)
+    for (int i = 0; i < nitems; i++)
+      if (items[i].k == K_MREF) printf (" K%d:%llx:%llx", i, (unsigned long long) ka1[i], (unsigned long long) ka2[i]);
   printf (" P");
   int head = -1;
   for (int i = 0; i < nitems; i++) {
@@ -711,10 +790,14 @@ static void run_case (char *line) {
     printf (" LR");
     for (int i = 0; i < nitems; i++) {
       struct pitem *p = &items[i];
-      if (p->k != K_LREF) continue;
+      if (p->k != K_LREF && !(p->k == K_MREF && have_h >= 0)) continue;
       int64_t v, want;
       memcpy (&v, p->it->addr, 8);
       want = (int64_t) ((uint64_t) ka1[i] - (uint64_t) ka2[i] + p->disp);
+      if (p->k == K_MREF) { /* value only (the labels of h are entered by calling h) */
+        printf (v != want ? " %d:bad(%lld)" : " %d:ok", i, (long long) (v - want));
+        continue;
+      }
       /* the value is also a working jump target: (value - disp [+ address of l2]) enters the code at l1 */
       int64_t (*g) (int64_t, int64_t) = (int64_t (*) (int64_t, int64_t)) items[have_g].it->addr;
       int64_t target = (int64_t) ((uint64_t) v - p->disp + (uint64_t) ka2[i]);
